@@ -255,3 +255,53 @@ def replay_payloads(path):
     pl.setdefault("overrides", {})
     pl.setdefault("max_legs", 300)
     return [pl]
+
+
+# ----------------------------------------------------------------------------------------------
+# Kinematics case (Model/Kinematics.v kcase)
+KIND_COQ = {"start_of_run": "KStart", "end_of_run": "KEndOfRun", "sampling": "KSampling", "dumping": "KDumping",
+            "end_of_chain": "KEndOfChain", "switcher": "KSwitcher", "cell_boundary": "KCellBoundary",
+            "cell_veto": "KCellVeto", "interaction": "KInteraction"}
+
+
+def fbz(b):
+    return "(of_bits %d%%Z)" % int(b)
+
+
+def coq_unit(u):
+    ch = u.get("charge") or {}
+    return ("{| u_id := %s; u_pos := %s; u_vel := %s; u_ts := %s; u_charge := %s |}" % (
+        coq_nat_list(u["id"]),
+        C.coq_list([fbz(b) for b in u["pos"]]),
+        "None" if u["vel"] is None else "(Some %s)" % C.coq_list([fbz(b) for b in u["vel"]]),
+        "None" if u["ts"] is None else "(Some (%s, %s))" % (fbz(u["ts"][0]), fbz(u["ts"][1])),
+        C.coq_list(["%d%%Z" % ch[k] for k in sorted(ch)])))
+
+
+def coq_ftime(t):
+    return "(%s, %s)" % (fbz(t[0]), fbz(t[1]))
+
+
+def encode_kcase(tr, max_legs=None):
+    meta = tr["meta"]
+    legs = []
+    for leg in tr["legs"][:max_legs]:
+        if leg.get("pick") is None or leg.get("out") is None or leg.get("delta") is None or leg.get("time") is None:
+            break
+        legs.append("{| k_kind := %s; k_cands := %s; k_pick := %d; k_time := %s; k_out := %s; k_trash := %s; "
+                    "k_after := %s |}" % (
+                        KIND_COQ[TC.handler_kind(meta, leg["pick"])],
+                        C.coq_list(["(%d, %s)" % (h, coq_ftime(t)) for h, t in leg["cands"]]),
+                        leg["pick"], coq_ftime(leg["time"]),
+                        C.coq_list([coq_unit(u) for u in leg["out"]]),
+                        coq_nat_list(leg["trash"]),
+                        C.coq_list([coq_unit(u) for u in leg["delta"]])))
+    if not legs:
+        return None
+    return "{| kc_L := %s; kc_init := %s; kc_legs := %s |}" % (
+        C.coq_list([fbz(b) for b in meta["system_lengths"]]),
+        C.coq_list([coq_unit(u) for u in tr["init_state"]]),
+        C.coq_list(legs))
+
+
+KIN_HEADER = "Require Import JF.Base.F64 JF.Model.Kinematics.\nFrom Coq Require Import ZArith."
